@@ -16,6 +16,7 @@ import (
 
 	"verif/internal/mon"
 	"verif/internal/textref"
+	"verif/internal/tmplref"
 	"verif/internal/vschema"
 	"verif/internal/wire"
 )
@@ -191,8 +192,41 @@ func keyOf(fds []protoreflect.FieldDescriptor, json bool) string {
 	return strings.Join(parts, ".")
 }
 
+// starVar is the variable with a one-segment wildcard pattern: competing
+// values need not match the template.
+func starVar(v pathVar) pathVar {
+	v.pat = []tmplref.Seg{{Kind: tmplref.Star}}
+	return v
+}
+
+// keyLeaves lists singular scalar leaves that travel in the query string, for
+// requests with many distinct keys.
+func keyLeaves(p *plan) []leaf {
+	var out []leaf
+	for _, lf := range urlLeaves(p.in, 2) {
+		fd := lf.fd()
+		if fd.IsList() || fd.Message() != nil || fd.ContainingOneof() != nil || fd.Kind() == protoreflect.BytesKind {
+			continue
+		}
+		if p.isPathVar(lf.path()) || sameOneofAsVar(p, lf) || (channelOf(p, lf.path(), bodyEnc{}) != "query" && p.rule.Body != "*") {
+			continue
+		}
+		clash := false
+		for _, v := range p.vars {
+			if strings.HasPrefix(v.field, lf.path()+".") {
+				clash = true
+			}
+		}
+		if !clash {
+			out = append(out, lf)
+		}
+	}
+	return out
+}
+
 // c07Extra adds parameters that do not compete for the bound field.
 type c07Extra struct {
+	keys     int    // this many URL parameters in total, on distinct keys as far as the type allows
 	siblings int    // 1..3 query params on same-typed sibling sub-messages
 	sibPos   string // before | after (the competing key)
 	many     int    // this many elements of a repeated query field
@@ -250,7 +284,7 @@ func (g *gen) c07Case(p *plan, v pathVar, idx int, qv, bv string, ex c07Extra) (
 	// competing texts: other canonical values of the same field
 	other := func(k int) (string, error) {
 		for tries := 0; tries < 50; tries++ {
-			t, err := p.pathTextFor(g.rng, v, idx+7+k+tries)
+			t, err := p.pathTextFor(g.rng, starVar(v), idx+7+k+tries)
 			if err != nil {
 				return "", err
 			}
@@ -355,6 +389,54 @@ func (g *gen) c07Case(p *plan, v pathVar, idx int, qv, bv string, ex c07Extra) (
 		}
 		c.Extra = "sibling-params"
 	}
+	if ex.keys > 0 {
+		want := ex.keys
+		if qv != "none" {
+			want--
+		}
+		for i, lf := range keyLeaves(p) {
+			if len(extras) >= want {
+				break
+			}
+			tmp := vschema.NewMsg(lf.fd().ContainingMessage()).ProtoReflect()
+			setLeaf(tmp, lf.fd(), idx+i, g.rng)
+			ts, err := canonTexts(tmp, lf.fd(), false)
+			if err != nil || len(ts) != 1 {
+				continue
+			}
+			t := ts[0]
+			if lf.fd().Kind() == protoreflect.StringKind {
+				t = fmt.Sprintf("key-%d", i)
+			}
+			if err := textref.Apply(expected.ProtoReflect(), lf.fds, t); err != nil {
+				continue
+			}
+			extras = append(extras, kv{keyOf(lf.fds, (g.n+i)%2 == 0), t})
+		}
+		if lf, ok := manyLeaf(p); ok && len(extras) < want {
+			cur := expected.ProtoReflect()
+			for _, fd := range lf.fds[:len(lf.fds)-1] {
+				cur = cur.Mutable(fd).Message()
+			}
+			l := cur.Mutable(lf.fd()).List()
+			for i := 0; len(extras) < want; i++ {
+				t := "f" + strconv.Itoa(i)
+				l.Append(protoreflect.ValueOfString(t))
+				extras = append(extras, kv{keyOf(lf.fds, false), t})
+			}
+		}
+		if len(extras) < 12 {
+			return nil, nil // the request type has too few fields for this dimension
+		}
+		if g.n%2 == 0 {
+			g.rng.Shuffle(len(extras), func(i, j int) {
+				if extras[i].k != extras[j].k {
+					extras[i], extras[j] = extras[j], extras[i]
+				}
+			})
+		}
+		c.Extra = "many-keys"
+	}
 	if ex.many > 0 {
 		lf, ok := manyLeaf(p)
 		if !ok {
@@ -389,6 +471,9 @@ func (g *gen) c07Case(p *plan, v pathVar, idx int, qv, bv string, ex c07Extra) (
 			c.Whole, c.Msg, c.MsgJSON = true, wireE, jsonOf(expected)
 		}
 		c.Repeat = 4
+		if ex.keys > 0 {
+			c.Repeat = 20 // the order of the query parameters varies per request
+		}
 	}
 	q.RawQuery = encodeQuery(query)
 	if bv != "none" {
@@ -458,11 +543,14 @@ func (g *gen) c07Case(p *plan, v pathVar, idx int, qv, bv string, ex c07Extra) (
 	if ex.many > 0 {
 		c.Via += fmt.Sprintf(",list-elements=%d", ex.many)
 	}
+	if ex.keys > 0 {
+		c.Via += fmt.Sprintf(",url-params=%d", ex.keys)
+	}
 	c.Class = p.rule.bodyShape() + ":" + c.Via
 	return c, nil
 }
 
-const ruleC07 = "every rule of the C03 catalogue with at least one path variable (vf.Req, ComplexRequest and the real larking.testpb annotations incl. Files.UploadDownload; top-level, nested and doubly nested fields; typed, enum, oneof and well-known-type variables; body '*', body <field>, no body). For every variable and several captures: competing, different values for the same field through the query string (proto name, JSON name, the key twice, before / after another key) and / or the body (JSON, protobuf, gzip JSON; body '*' or a body field that contains the variable), all combinations. In addition, for every variable on a nested field: 1-3 query parameters on same-typed sibling sub-messages (vf.Req sub / osub, ComplexRequest nested / oneof_nested; the sibling's field of the same name first) before / after the competing key, x query x body competitors; and for every variable: a repeated query field of 10, 63, 64, 65, 200, 1000 elements next to the competitors. These requests are served 4 times each (query parameters are applied in map order). Oracle: the handler's value of the field equals the protojson value of the path capture, and - for the cases with non-competing parameters on rules without body '*' - the whole message equals the capture(s) plus every parameter the client sent; a request rejected with an error status is allowed. The catalogue includes variables of every scalar kind and bytes (top-level and nested) on rules that map a body; bytes captures are spelled std / url-safe, padded / unpadded; bodies carry the competing value or do not name the field at all, with fillers of 0-6000 bytes. WebSocket transport (real loopback listener through larking.NewServer): websocket-kind bindings on bidi methods (vf.Req top-level / nested / typed / bytes / multi-segment variables, body '*' and body field; the real testpb ChatRoom.Chat) with the competing value in the query string, in the first frame and / or in later frames (1-3 frames, each acknowledged by the handler): the first message the handler receives must carry the capture. distinct = (rule, variable, query variant, body variant, sibling / list-size variant | websocket frame variant) of dispatched requests that kept the capture"
+const ruleC07 = "every rule of the C03 catalogue with at least one path variable (vf.Req, ComplexRequest and the real larking.testpb annotations incl. Files.UploadDownload; top-level, nested and doubly nested fields; typed, enum, oneof and well-known-type variables; body '*', body <field>, no body). For every variable and several captures: competing, different values for the same field through the query string (proto name, JSON name, the key twice, before / after another key) and / or the body (JSON, protobuf, gzip JSON; body '*' or a body field that contains the variable), all combinations. In addition, for every variable on a nested field: 1-3 query parameters on same-typed sibling sub-messages (vf.Req sub / osub, ComplexRequest nested / oneof_nested; the sibling's field of the same name first) before / after the competing key, x query x body competitors; and for every variable: a repeated query field of 10, 63, 64, 65, 200, 1000 elements next to the competitors. These requests are served 4 times each (query parameters are applied in map order). Oracle: the handler's value of the field equals the protojson value of the path capture, and - for the cases with non-competing parameters on rules without body '*' - the whole message equals the capture(s) plus every parameter the client sent; a request rejected with an error status is allowed. Also 13, 14, 20 and 40 URL parameters on distinct keys (one naming the bound field), each request served 20 times. The catalogue includes constant variables ({f=lit}, {f=lit/lit}, typed {f=true}, {e=RED}, the real Messaging.Action {text=action}) and variables of every scalar kind and bytes (top-level and nested) on rules that map a body; bytes captures are spelled std / url-safe, padded / unpadded; bodies carry the competing value or do not name the field at all, with fillers of 0-6000 bytes. WebSocket transport (real loopback listener through larking.NewServer): websocket-kind bindings on bidi methods (vf.Req top-level / nested / typed / bytes / multi-segment variables, body '*' and body field; the real testpb ChatRoom.Chat) with the competing value in the query string, in the first frame and / or in later frames (1-3 frames, each acknowledged by the handler): the first message the handler receives must carry the capture. distinct = (rule, variable, query variant, body variant, sibling / list-size variant | websocket frame variant) of dispatched requests that kept the capture"
 
 // RunC07 is the path-bound-fields-are-authoritative check.
 func RunC07(r *mon.Run) {
@@ -533,6 +621,18 @@ func RunC07(r *mon.Run) {
 					}
 				}
 			}
+			// 13..40 URL parameters on (mostly) distinct keys, one of them
+			// naming the bound field; served 20 times each
+			if vi == 0 || r.Thorough() {
+				for ki, n := range []int{13, 14, 20, 40} {
+					for ci, comb := range [][2]string{{"proto-name", "none"}, {"json-name", "json"}, {"proto-name", "protobuf-unrelated"}} {
+						if !r.Thorough() && (ki+ci+ri)%2 == 1 {
+							continue
+						}
+						do(g.c07Case(p, v, 5+ki+ci, comb[0], comb[1], c07Extra{keys: n, sibPos: []string{"before", "after"}[(ki+ci)%2]}))
+					}
+				}
+			}
 			// many URL parameters next to the competitors
 			for si, n := range []int{10, 63, 64, 65, 200, 1000} {
 				if n == 1000 && !r.Thorough() && (ri+vi)%4 != 0 {
@@ -554,7 +654,7 @@ func RunC07(r *mon.Run) {
 // JSON). ok is false for other kinds or when the variant is not path-safe.
 func bytesTextVariant(md protoreflect.MessageDescriptor, v pathVar, canonical string, idx int) (string, bool) {
 	fd := v.fds[len(v.fds)-1]
-	if fd.Kind() != protoreflect.BytesKind || fd.IsList() || len(v.pat) != 1 {
+	if fd.Kind() != protoreflect.BytesKind || fd.IsList() || !isSingleStar(v.pat) {
 		return "", false
 	}
 	t := canonical
@@ -698,7 +798,7 @@ func (g *gen) wsCase(p *plan, v pathVar, idx int, qv string, first, later bool, 
 	}
 	other := func(k int) (string, error) {
 		for tries := 0; tries < 50; tries++ {
-			t, err := p.pathTextFor(g.rng, v, idx+7+k+tries)
+			t, err := p.pathTextFor(g.rng, starVar(v), idx+7+k+tries)
 			if err != nil {
 				return "", err
 			}
